@@ -338,14 +338,18 @@ func (im *seqImpl) exec(f []string, rng *seqRng) (res string) {
 			}
 			return canonErr(w.Close())
 		default:
-			return canonErr(st.Set(im.ctx, key(f[2]), data))
+			ctx, cancel := context.WithCancel(im.ctx) // the caller's context ends when the call has returned
+			defer cancel()
+			return canonErr(st.Set(ctx, key(f[2]), data))
 		}
 	case "d":
 		st, ok := im.store(atoi(f[1]))
 		if !ok {
 			return "bad-op"
 		}
-		return canonErr(st.Delete(im.ctx, key(f[2])))
+		ctx, cancel := context.WithCancel(im.ctx)
+		defer cancel()
+		return canonErr(st.Delete(ctx, key(f[2])))
 	case "g":
 		st, ok := im.store(atoi(f[1]))
 		if !ok {
@@ -389,7 +393,11 @@ func (im *seqImpl) exec(f []string, rng *seqRng) (res string) {
 		if !ok {
 			return "bad-op"
 		}
-		return canonErr(tx.Commit(im.ctx))
+		// the usual `ctx, cancel := context.WithTimeout(…); defer cancel()` of a request: the context is
+		// cancelled right after Commit has returned, while the clean-up it handed over may still be queued
+		ctx, cancel := context.WithCancel(im.ctx)
+		defer cancel()
+		return canonErr(tx.Commit(ctx))
 	case "r":
 		im.mu.Lock()
 		tx, ok := im.txs[atoi(f[1])]
@@ -397,7 +405,9 @@ func (im *seqImpl) exec(f []string, rng *seqRng) (res string) {
 		if !ok {
 			return "bad-op"
 		}
-		return canonErr(tx.Rollback(im.ctx))
+		ctx, cancel := context.WithCancel(im.ctx)
+		defer cancel()
+		return canonErr(tx.Rollback(ctx))
 	case "gc":
 		return canonErr(im.d.container.Cleaner().DeleteOld(im.ctx))
 	case "drain":
